@@ -521,6 +521,16 @@ func (a Sources) RequiredPrivileges() (ExecutionPrivileges, error) {
 	return ep, nil
 }
 
+// requiredPrivilegesOn returns the privileges needed to read the given
+// sources, or to read the given database when no source is named: a
+// statement without a FROM clause reads every measurement of its database.
+func (a Sources) requiredPrivilegesOn(database string) (ExecutionPrivileges, error) {
+	if len(a) == 0 {
+		return ExecutionPrivileges{{Admin: false, Name: database, Privilege: ReadPrivilege}}, nil
+	}
+	return a.RequiredPrivileges()
+}
+
 // IsSystemName returns true if name is an internal system name.
 func IsSystemName(name string) bool {
 	switch name {
@@ -2411,7 +2421,7 @@ func (s *ShowSeriesCardinalityStatement) RequiredPrivileges() (ExecutionPrivileg
 	if !s.Exact {
 		return ExecutionPrivileges{{Admin: false, Name: s.Database, Privilege: ReadPrivilege}}, nil
 	}
-	return s.Sources.RequiredPrivileges()
+	return s.Sources.requiredPrivilegesOn(s.Database)
 }
 
 // DefaultDatabase returns the default database from the statement.
@@ -2616,7 +2626,7 @@ func (s *ShowMeasurementCardinalityStatement) RequiredPrivileges() (ExecutionPri
 	if !s.Exact {
 		return ExecutionPrivileges{{Admin: false, Name: s.Database, Privilege: ReadPrivilege}}, nil
 	}
-	return s.Sources.RequiredPrivileges()
+	return s.Sources.requiredPrivilegesOn(s.Database)
 }
 
 // DefaultDatabase returns the default database from the statement.
@@ -3051,7 +3061,7 @@ func (s *ShowTagKeyCardinalityStatement) String() string {
 
 // RequiredPrivileges returns the privilege required to execute a ShowTagKeyCardinalityStatement.
 func (s *ShowTagKeyCardinalityStatement) RequiredPrivileges() (ExecutionPrivileges, error) {
-	return s.Sources.RequiredPrivileges()
+	return s.Sources.requiredPrivilegesOn(s.Database)
 }
 
 // DefaultDatabase returns the default database from the statement.
@@ -3206,7 +3216,7 @@ func (s *ShowTagValuesCardinalityStatement) String() string {
 
 // RequiredPrivileges returns the privilege required to execute a ShowTagValuesCardinalityStatement.
 func (s *ShowTagValuesCardinalityStatement) RequiredPrivileges() (ExecutionPrivileges, error) {
-	return s.Sources.RequiredPrivileges()
+	return s.Sources.requiredPrivilegesOn(s.Database)
 }
 
 // DefaultDatabase returns the default database from the statement.
@@ -3275,7 +3285,7 @@ func (s *ShowFieldKeyCardinalityStatement) String() string {
 
 // RequiredPrivileges returns the privilege required to execute a ShowFieldKeyCardinalityStatement.
 func (s *ShowFieldKeyCardinalityStatement) RequiredPrivileges() (ExecutionPrivileges, error) {
-	return s.Sources.RequiredPrivileges()
+	return s.Sources.requiredPrivilegesOn(s.Database)
 }
 
 // DefaultDatabase returns the default database from the statement.
